@@ -15,32 +15,36 @@
              cx_tsval (what the timestamp generator returns), cx_isn (next random ISN)
    UNITS     all times in microseconds; rtte srtt/rttvar/rto in milliseconds (u32) as in the source
 
-   FUNCTION (this file)            RUST (src/socket/tcp.rs)
+   FUNCTION (this file)            RUST (src/socket/tcp.rs at /repo d04325c; line numbers drift with fix commits)
    rtte_* / timer_* / reno_* cc_*  RttEstimator l.191-278 / Timer l.302-427 / congestion/reno.rs, congestion.rs
-   tcp_new tcp_reset               Socket::new l.571, reset l.903   (+ set_congestion_control, set_tsval_generator)
-   tcp_set_timeout/ack_delay/nagle/keep_alive/hop_limit            l.797-877
-   tcp_scaled_window tcp_last_scaled_window                        l.763, l.776
-   tcp_listen tcp_connect tcp_close tcp_abort                      l.941, l.1012, l.1083, l.1113
-   tcp_is_open tcp_may_send tcp_may_recv tcp_can_send tcp_can_recv l.1137-1235
-   tcp_send_slice tcp_recv_slice tcp_peek tcp_peek_slice tcp_send_queue tcp_recv_queue  l.1237-1414
-   tcp_flight_size tcp_cwnd_remaining                              l.1396, l.1400
-   tcp_reply tcp_rst_reply tcp_ack_reply tcp_challenge_ack_reply   l.1433-1552
-   tcp_accepts                                                     l.1554
-   tcp_process = phases, in source order:                          l.1584-2289
-     tcp_process_ack_check    state/flag sanity, ACK acceptability      l.1592-1703
-     tcp_process_window       segment acceptability test + trimming     l.1705-1832
-     tcp_process_ack_len      ack_len / ack_of_fin / ack_all            l.1834-1860
-     tcp_process_quash        PSH and out-of-order FIN quashing         l.1862-1875
-     tcp_process_transition   the (state, control) table                l.1877-2056
-     tcp_process_update_remote  remote_last_ts, window, tx dequeue      l.2058-2088
-     tcp_process_dup_ack      duplicate-ACK counting, rtte/cc, SND.UNA  l.2090-2165
-     tcp_process_timers / tcp_process_zwp                               l.2167-2203
-     tcp_process_payload      assembler + ring, delayed ACK, reply      l.2205-2289
+   tcp_new tcp_reset               Socket::new l.575, reset l.914   (+ set_congestion_control, set_tsval_generator)
+   tcp_set_timeout/ack_delay/nagle/keep_alive/hop_limit            l.808-890
+   tcp_scaled_window tcp_last_scaled_window                        l.768, l.781
+   tcp_listen tcp_connect tcp_close tcp_abort                      l.953, l.1024, l.1095, l.1129
+   tcp_is_open tcp_may_send tcp_may_recv tcp_can_send tcp_can_recv l.1153-1251
+   tcp_send_slice tcp_recv_slice tcp_peek tcp_peek_slice tcp_send_queue tcp_recv_queue  l.1253-1444
+   tcp_flight_size tcp_send_next_seq tcp_cwnd_remaining            l.1412, l.1423, l.1430
+   tcp_reply tcp_rst_reply tcp_ack_reply tcp_challenge_ack_reply   l.1463-1582
+   tcp_accepts                                                     l.1584
+   tcp_sent_syn tcp_sent_fin                                       l.1623-1634 (the (sent_syn, sent_fin) match)
+   tcp_process = phases, in source order:                          l.1614-2357
+     tcp_process_ack_check    state/flag sanity, ACK acceptability      l.1636-1735
+     tcp_process_window       segment acceptability test + trimming     l.1737-1868
+     tcp_process_ack_len      ack_len / ack_of_fin / ack_all            l.1870-1896
+     tcp_process_quash        PSH and out-of-order FIN quashing         l.1898-1916
+     tcp_process_transition   the (state, control) table                l.1918-2110
+     tcp_process_update_remote  remote_last_ts, window, tx dequeue      l.2112-2142
+     tcp_process_dup_ack      duplicate-ACK counting, rtte/cc, SND.UNA  l.2144-2223
+     tcp_process_timers / tcp_process_zwp                               l.2230-2271
+     tcp_process_payload      assembler + ring, delayed ACK, reply      l.2273-2357
    tcp_timed_out tcp_seq_to_transmit tcp_delayed_ack_expired tcp_ack_to_transmit
-   tcp_immediate_ack_to_transmit tcp_window_to_update              l.2291-2430
-   tcp_dispatch = tcp_dispatch_timers; tcp_dispatch_decide; tcp_dispatch_build; tcp_dispatch_finish  l.2432-2810
-   tcp_poll_at                                                     l.2813
-   iface_tcp_ingress iface_poll_at iface_poll_egress               iface/interface/tcp.rs, mod.rs l.582, l.468-536
+   tcp_immediate_ack_to_transmit tcp_window_to_update              l.2359-2506
+   tcp_dispatch = tcp_dispatch_timers; tcp_dispatch_decide; tcp_dispatch_build (tcp_syn_repr,
+                  tcp_dispatch_build_data); tcp_dispatch_finish     l.2508-2925
+   tcp_poll_at                                                     l.2928
+   iface_tcp_ingress iface_poll_at iface_poll_egress(_acc)         iface/interface/tcp.rs, mod.rs l.582, l.468-536
+   tcp_step                        one event (API call | segment | one dispatch) as a function: what the
+                                   theorems of Proofs/TcpStateProofs.v (C17) quantify over
 
    PANICS    every `SeqNumber - SeqNumber`, usize subtraction, `unwrap`, `assert!`/`debug_assert!`
              (debug profile), slice range and the u32 overflow checks of the RTT estimator are [Panic]
